@@ -790,6 +790,27 @@ class Interp:
                 t = mk_fd([(g, getattr(v, name)()) for g, v in fd_cases(c)])
                 r = self.and_(r, t)
             return r
+        if name in ("strip", "lstrip", "rstrip") and (args or name != "strip") and len(args) <= 1 and (not args or isinstance(args[0], str) or args[0] is None):
+            # strip with an explicit character set (or one-sided): fork per boundary character
+            chset = args[0] if args and args[0] is not None else None
+            test = (lambda v: v in chset) if chset is not None else (lambda v: v.isspace())
+            cs = self.chars(s)
+            lo, hi = 0, len(cs)
+            if name in ("strip", "lstrip"):
+                while lo < hi:
+                    t = mk_fd([(g, test(v)) for g, v in fd_cases(cs[lo])])
+                    if self.branch(self.truth(t)):
+                        lo += 1
+                    else:
+                        break
+            if name in ("strip", "rstrip"):
+                while hi > lo:
+                    t = mk_fd([(g, test(v)) for g, v in fd_cases(cs[hi - 1])])
+                    if self.branch(self.truth(t)):
+                        hi -= 1
+                    else:
+                        break
+            return mk_str(cs[lo:hi])
         if name == "strip" and not args:
             cs = self.chars(s)
             lo = 0
@@ -2422,6 +2443,10 @@ class Interp:
                             raise PyRaise(ex)
                     self.list_replace(recv, new)
                     return None
+            if isinstance(recv, dict) and fn.__name__ == "update" and len(args) == 1 and isinstance(args[0], dict) and not kwargs:
+                for k_, v_ in args[0].items():
+                    self.set_item(recv, k_, v_)
+                return None
             if isinstance(recv, set) and fn.__name__ in ("add", "discard", "remove", "update", "clear"):
                 if self.deep_symbolic(args):
                     if fn.__name__ == "add" and isinstance(e.func, ast.Attribute) and isinstance(e.func.value, ast.Name):
